@@ -5,14 +5,15 @@
 From SV Require Import Model.ProfileTables.
 From Coq Require Import NArith.
 
-Definition fkey := (nat * option (nat * N))%type.            (* name string index, Native (used-lib index, relative address) or Label *)
+Definition fkey := (nat * option (nat * N * option nat))%type.   (* name string index; Native (used-lib index, relative address, native symbol) or Label *)
 Definition funckey := (nat * option nat)%type.                 (* name string index, used-lib index *)
 
 Definition fkey_eqb (a b : fkey) : bool :=
   Nat.eqb (fst a) (fst b) &&
   match snd a, snd b with
   | None, None => true
-  | Some (l, r), Some (l', r') => Nat.eqb l l' && N.eqb r r'
+  | Some (l, r, ns), Some (l', r', ns') =>
+      Nat.eqb l l' && N.eqb r r' && match ns, ns' with None, None => true | Some x, Some y => Nat.eqb x y | _, _ => false end
   | _, _ => false
   end.
 Definition funckey_eqb (a b : funckey) : bool :=
@@ -22,12 +23,13 @@ Record ttab := mkTT {
   tt_strings : list N;                         (* stringArray: content ids in order of first use *)
   tt_res_lib : list nat; tt_res_name : list nat;                     (* resourceTable columns *)
   tt_funcs : list funckey; tt_func_res : list (option nat);          (* funcTable: key set (name, lib) and the resource column *)
-  tt_frames : list fkey; tt_frame_func : list nat }.                 (* frameTable: key set and the func column *)
-Definition tt_empty : ttab := mkTT [] [] [] [] [] [] [].
+  tt_frames : list fkey; tt_frame_func : list nat;                   (* frameTable: key set and the func column *)
+  tt_ns : list (nat * N); tt_ns_name : list nat }.                   (* nativeSymbols: key set (lib, symbol address) and the name column *)
+Definition tt_empty : ttab := mkTT [] [] [] [] [] [] [] [] [].
 
 Definition intern_string (t : ttab) (s : N) : nat * ttab :=
   let '(i, l) := intern N.eqb (tt_strings t) s in
-  (i, mkTT l (tt_res_lib t) (tt_res_name t) (tt_funcs t) (tt_func_res t) (tt_frames t) (tt_frame_func t)).
+  (i, mkTT l (tt_res_lib t) (tt_res_name t) (tt_funcs t) (tt_func_res t) (tt_frames t) (tt_frame_func t) (tt_ns t) (tt_ns_name t)).
 
 (* resource_for_lib: one resource per used library; the library's name string is interned when the resource is created *)
 Definition resource_for_lib (t : ttab) (lib : nat) (libname : N) : nat * ttab :=
@@ -35,7 +37,7 @@ Definition resource_for_lib (t : ttab) (lib : nat) (libname : N) : nat * ttab :=
   | Some r => (r, t)
   | None =>
       let '(n, t1) := intern_string t libname in
-      (length (tt_res_lib t1), mkTT (tt_strings t1) (tt_res_lib t1 ++ [lib]) (tt_res_name t1 ++ [n]) (tt_funcs t1) (tt_func_res t1) (tt_frames t1) (tt_frame_func t1))
+      (length (tt_res_lib t1), mkTT (tt_strings t1) (tt_res_lib t1 ++ [lib]) (tt_res_name t1 ++ [n]) (tt_funcs t1) (tt_func_res t1) (tt_frames t1) (tt_frame_func t1) (tt_ns t1) (tt_ns_name t1))
   end.
 
 Definition func_for (t : ttab) (k : funckey) (libname : N) : nat * ttab :=
@@ -46,37 +48,60 @@ Definition func_for (t : ttab) (k : funckey) (libname : N) : nat * ttab :=
                         | Some lib => let '(r, t') := resource_for_lib t lib libname in (Some r, t')
                         | None => (None, t)
                         end in
-      (length (tt_funcs t1), mkTT (tt_strings t1) (tt_res_lib t1) (tt_res_name t1) (tt_funcs t1 ++ [k]) (tt_func_res t1 ++ [res]) (tt_frames t1) (tt_frame_func t1))
+      (length (tt_funcs t1), mkTT (tt_strings t1) (tt_res_lib t1) (tt_res_name t1) (tt_funcs t1 ++ [k]) (tt_func_res t1 ++ [res]) (tt_frames t1) (tt_frame_func t1) (tt_ns t1) (tt_ns_name t1))
   end.
 
 Definition frame_for (t : ttab) (k : fkey) (libname : N) : nat * ttab :=
   match index_of fkey_eqb k (tt_frames t) with
   | Some i => (i, t)
   | None =>
-      let '(f, t1) := func_for t (fst k, option_map fst (snd k)) libname in
-      (length (tt_frames t1), mkTT (tt_strings t1) (tt_res_lib t1) (tt_res_name t1) (tt_funcs t1) (tt_func_res t1) (tt_frames t1 ++ [k]) (tt_frame_func t1 ++ [f]))
+      let '(f, t1) := func_for t (fst k, option_map (fun x => fst (fst x)) (snd k)) libname in
+      (length (tt_frames t1), mkTT (tt_strings t1) (tt_res_lib t1) (tt_res_name t1) (tt_funcs t1) (tt_func_res t1) (tt_frames t1 ++ [k]) (tt_frame_func t1 ++ [f]) (tt_ns t1) (tt_ns_name t1))
+  end.
+
+(* native_symbols.rs: one row per (library, symbol address); the symbol's name string is interned when the row is created *)
+Definition ns_key_eqb (a b : nat * N) : bool := Nat.eqb (fst a) (fst b) && N.eqb (snd a) (snd b).
+Definition native_symbol_for (t : ttab) (lib : nat) (addr : N) (symname : N) : nat * ttab :=
+  match index_of ns_key_eqb (lib, addr) (tt_ns t) with
+  | Some i => (i, t)
+  | None =>
+      let '(n, t1) := intern_string t symname in
+      (length (tt_ns t1), mkTT (tt_strings t1) (tt_res_lib t1) (tt_res_name t1) (tt_funcs t1) (tt_func_res t1) (tt_frames t1) (tt_frame_func t1)
+                               (tt_ns t1 ++ [(lib, addr)]) (tt_ns_name t1 ++ [n]))
   end.
 
 (* what callers do *)
 Inductive freq :=
 | FString (s : N)                                  (* a string converted for this thread (marker name / text) *)
 | FLabel (name : N)                                (* handle_for_frame_with_label *)
-| FNative (lib : nat) (rel : N) (hexname libname : N).   (* handle_for_frame_with_address resolved into a used library *)
+| FNative (lib : nat) (rel : N) (hexname libname : N)    (* handle_for_frame_with_address resolved into a used library without symbol table hit *)
+| FNativeSym (lib : nat) (rel symaddr : N) (symname libname : N).   (* ... inside a symbol of the library's symbol table *)
 
 Definition do_req (t : ttab) (r : freq) : ttab :=
   match r with
   | FString s => snd (intern_string t s)
   | FLabel name => let '(n, t1) := intern_string t name in snd (frame_for t1 (n, None) 0%N)
-  | FNative lib rel hexname libname => let '(n, t1) := intern_string t hexname in snd (frame_for t1 (n, Some (lib, rel)) libname)
+  | FNative lib rel hexname libname => let '(n, t1) := intern_string t hexname in snd (frame_for t1 (n, Some (lib, rel, None)) libname)
+  | FNativeSym lib rel symaddr symname libname =>
+      let '(ns, t1) := native_symbol_for t lib symaddr symname in
+      snd (frame_for t1 (nth ns (tt_ns_name t1) 0, Some (lib, rel, Some ns)) libname)
   end.
 Definition run_reqs (rs : list freq) : ttab := fold_left do_req rs tt_empty.
 
 (* every index stored in a column points into its table; columns have their table's length *)
-Definition tt_wf (nlibs : nat) (t : ttab) : Prop :=
-  length (tt_res_name t) = length (tt_res_lib t) /\ length (tt_func_res t) = length (tt_funcs t) /\ length (tt_frame_func t) = length (tt_frames t) /\
-  (forall l, In l (tt_res_lib t) -> l < nlibs) /\ (forall n, In n (tt_res_name t) -> n < length (tt_strings t)) /\
-  (forall k, In k (tt_funcs t) -> fst k < length (tt_strings t)) /\
-  (forall r, In (Some r) (tt_func_res t) -> r < length (tt_res_lib t)) /\
-  (forall k, In k (tt_frames t) -> fst k < length (tt_strings t)) /\
-  (forall f, In f (tt_frame_func t) -> f < length (tt_funcs t)).
-Definition req_ok (nlibs : nat) (r : freq) : Prop := match r with FNative lib _ _ _ => lib < nlibs | _ => True end.
+Record tt_wf (nlibs : nat) (t : ttab) : Prop := mkWF {
+  w_res_len : length (tt_res_name t) = length (tt_res_lib t);
+  w_func_len : length (tt_func_res t) = length (tt_funcs t);
+  w_frame_len : length (tt_frame_func t) = length (tt_frames t);
+  w_ns_len : length (tt_ns_name t) = length (tt_ns t);
+  w_res_lib : forall l, In l (tt_res_lib t) -> l < nlibs;
+  w_res_name : forall n, In n (tt_res_name t) -> n < length (tt_strings t);
+  w_func_name : forall k, In k (tt_funcs t) -> fst k < length (tt_strings t);
+  w_func_res : forall r, In (Some r) (tt_func_res t) -> r < length (tt_res_lib t);
+  w_frame_name : forall k, In k (tt_frames t) -> fst k < length (tt_strings t);
+  w_frame_func : forall f, In f (tt_frame_func t) -> f < length (tt_funcs t);
+  w_ns_lib : forall k, In k (tt_ns t) -> fst k < nlibs;
+  w_ns_name : forall n, In n (tt_ns_name t) -> n < length (tt_strings t);
+  w_frame_ns : forall n l r i, In (n, Some (l, r, Some i)) (tt_frames t) -> i < length (tt_ns t) }.
+Definition req_ok (nlibs : nat) (r : freq) : Prop :=
+  match r with FNative lib _ _ _ => lib < nlibs | FNativeSym lib _ _ _ _ => lib < nlibs | _ => True end.
